@@ -200,6 +200,30 @@ theorem map_enc_inj : ∀ (fs gs : List Field), sameShape fs gs = true → fs.ma
   | [], _ :: _, hs, _ => by simp [sameShape] at hs
   | _ :: _, [], hs, _ => by simp [sameShape] at hs
 
+theorem count_noSlash {x : List Nat} (h : slash ∉ x) : x.count slash = 0 :=
+  List.count_eq_zero.mpr h
+
+/-- a joined pre-image of `n ≥ 1` separator-free parts contains exactly `n - 1` separators -/
+theorem count_join : ∀ (xs : List (List Nat)), (∀ x ∈ xs, slash ∉ x) → xs ≠ [] →
+    (join xs).count slash + 1 = xs.length
+  | [], _, hne => absurd rfl hne
+  | [x], h, _ => by simp [join, count_noSlash (h x (by simp))]
+  | x :: y :: rest, h, _ => by
+    have ih := count_join (y :: rest) (fun a ha => h a (List.mem_cons_of_mem _ ha)) (by simp)
+    simp only [join, List.count_append, List.count_cons_self, count_noSlash (h x (by simp)), List.length_cons] at ih ⊢
+    omega
+
+theorem nodup_map_inj {α β : Type} (f : α → β) : ∀ (l : List α), (l.map f).Nodup →
+    ∀ a ∈ l, ∀ b ∈ l, f a = f b → a = b
+  | [], _, a, ha, _, _, _ => by simp at ha
+  | x :: xs, hn, a, ha, b, hb, hab => by
+    simp only [List.map_cons, List.nodup_cons, List.mem_map, not_exists, not_and] at hn
+    rcases List.mem_cons.mp ha with rfl | ha' <;> rcases List.mem_cons.mp hb with rfl | hb'
+    · rfl
+    · exact absurd hab.symm (hn.1 b hb')
+    · exact absurd hab (hn.1 a ha')
+    · exact nodup_map_inj f xs hn.2 a ha' b hb' hab
+
 end Lemmas
 
 /-! ## Property theorems (C11) -/
@@ -275,6 +299,49 @@ makes this `decide` fail. -/
 theorem hashed_covers_effect_fields :
     ((Paloma.Gen.Claims.claims.filter fun c => !legacyTypes.contains c.name).all claimOk) = true := by decide
 
+/-- **preimage_fixes_arity.** The number of `/`-separated parts of a pre-image is determined by
+its bytes (no rendered field contains the separator), so claims whose formats have a different
+number of parts can never share a pre-image. -/
+theorem preimage_fixes_arity (fs gs : List Field) (hf : fs ≠ []) (hg : gs ≠ [])
+    (h : preimage fs = preimage gs) : fs.length = gs.length := by
+  unfold preimage at h
+  have a := count_join (fs.map enc)
+    (by intro x hx; rcases List.mem_map.mp hx with ⟨f, _, rfl⟩; exact enc_noSlash f) (by simpa using hf)
+  have b := count_join (gs.map enc)
+    (by intro x hx; rcases List.mem_map.mp hx with ⟨f, _, rfl⟩; exact enc_noSlash f) (by simpa using hg)
+  rw [h] at a
+  simp only [List.length_map] at a b
+  omega
+
+/-- the submittable claim types of the CURRENT source, as (name, number of hashed parts) -/
+def arities : List (String × Nat) :=
+  (Paloma.Gen.Claims.claims.filter fun c => !legacyTypes.contains c.name).map fun c => (c.name, c.verbs.length)
+
+/-- **claim_types_have_distinct_arity.** (decide over the regenerated table) every submittable
+claim type hashes at least one part and no two of them hash the same number of parts. -/
+theorem claim_types_have_distinct_arity :
+    (arities.all fun a => decide (1 ≤ a.2)) = true ∧ (arities.map (·.2)).Nodup := by decide
+
+/-- **claim_types_never_pool.** Claims of two different submittable types never share a pre-image
+(hence, with a collision-free hash, never an attestation key): the claim type itself — which
+selects the handler and so is effect-bearing — is pinned by the hash although it is not written
+into it. -/
+theorem claim_types_never_pool (a b : String × Nat) (ha : a ∈ arities) (hb : b ∈ arities) (hne : a.1 ≠ b.1)
+    (fs gs : List Field) (hfa : fs.length = a.2) (hgb : gs.length = b.2) : preimage fs ≠ preimage gs := by
+  intro h
+  have h1 := claim_types_have_distinct_arity.1
+  have h2 := claim_types_have_distinct_arity.2
+  rw [List.all_eq_true] at h1
+  have pa := h1 a ha; have pb := h1 b hb
+  simp only [decide_eq_true_eq] at pa pb
+  have hl := preimage_fixes_arity fs gs (by intro e; rw [e] at hfa; simp at hfa; omega)
+    (by intro e; rw [e] at hgb; simp at hgb; omega) h
+  have hab : a.2 = b.2 := by omega
+  -- equal arities in a duplicate-free arity list mean the same table row
+  have : a = b := by
+    exact nodup_map_inj (·.2) arities h2 a ha b hb hab
+  exact hne (by rw [this])
+
 /-- the three claim types the oracle handles are all present in the table -/
 theorem claim_types_present :
     (["MsgSendToPalomaClaim", "MsgBatchSendToRemoteClaim", "MsgLightNodeSaleClaim"].all fun n =>
@@ -290,5 +357,7 @@ example : preimage [.num 7, .num 100, .str [48, 120], .amt 25, .str []] =
     [55, 47, 49, 48, 48, 47, 51, 48, 55, 56, 47, 50, 53, 47] := by
   simp [preimage, join, enc, encStr, hexd, decDigits, slash]
 example : sameShape [.num 1, .amt 5, .str [1]] [.num 2, .nilAmt, .str []] = true := by decide
+/-- `claim_types_never_pool` speaks about three real rows -/
+example : arities = [("MsgBatchSendToRemoteClaim", 5), ("MsgLightNodeSaleClaim", 6), ("MsgSendToPalomaClaim", 7)] := by decide
 
 end Paloma.ClaimHash
